@@ -132,6 +132,20 @@ class Effects:
             if n is not None:
                 defs = rd[n].get(root.id, set())
                 if defs and all(self._fresh_def(f, d, root.id) for d in defs):
+                    # a shallow copy is fresh only at its top level: a write one attribute further down lands in an object
+                    # the copy shares with its source
+                    if len(chain) >= 2:
+                        for d in defs:
+                            src = self._shallow_copy_source(d)
+                            if src is None:
+                                continue
+                            o = self.owner(f, src, cfg_cache, lambda g_, d=d: d)
+                            if o is None and isinstance(src, (ast.Attribute, ast.Subscript)):
+                                o = self.owner(f, src.value, cfg_cache, lambda g_, d=d: d)
+                            if o is not None:
+                                nxt = chain[1]
+                                attr = nxt.attr if isinstance(nxt, ast.Attribute) else '[]'
+                                return (o[0], f'{root.id} = shallow copy of {text(src)}', attr)
                     return None
         first_percall = False
         for i, pref in enumerate(chain):
@@ -200,6 +214,23 @@ class Effects:
         if last.endswith('_class') or text(fn) in ('type(self)', 'self.__class__'):
             return True
         return False
+
+    @staticmethod
+    def _shallow_copy_source(d) -> Optional[ast.AST]:
+        """the copied expression when definition ``d`` is ``x = copy(src)`` / ``x = src.copy()`` / ``x = src._copy()``."""
+        v = getattr(d.ast, 'value', None)
+        while isinstance(v, ast.Call) and text(v.func) == 'cast' and len(v.args) == 2:
+            v = v.args[1]
+        if not isinstance(v, ast.Call):
+            return None
+        fn = v.func
+        if isinstance(fn, ast.Name) and fn.id == 'copy' and len(v.args) == 1:
+            return v.args[0]
+        if isinstance(fn, ast.Attribute) and dotted(fn) in ('copy.copy', '_copy.copy') and len(v.args) == 1:
+            return v.args[0]
+        if isinstance(fn, ast.Attribute) and fn.attr in ('copy', '_copy', '__copy__') and not v.args:
+            return fn.value
+        return None
 
     def _is_local(self, f: FuncInfo, name: str) -> bool:
         """Is ``name`` (re)bound as a plain local in f (a subscript/attribute store on it does not bind it)?"""
